@@ -44,11 +44,12 @@ def build_case(u):
         if u.below(4):
             ems.insert(u.below(len(ems) + 1), (k, "deliver", 0))
         reqs.append({"op": op, "ems": ems})
-    return {"cfg": cfg, "driver": driver, "reqs": reqs}
+    # v3: half of the non-blocking sessions learn their engine id through a discovery exchange first (as the clients do)
+    return {"cfg": cfg, "driver": driver, "reqs": reqs, "discover": cfg.version == "v3" and driver == "nb" and u.bool()}
 
 
 def describe(c):
-    return {"cfg": c["cfg"].describe(), "_cfg": gen.cfg_to_json(c["cfg"]), "driver": c["driver"], "reqs": c["reqs"]}
+    return {"cfg": c["cfg"].describe(), "_cfg": gen.cfg_to_json(c["cfg"]), "driver": c["driver"], "reqs": c["reqs"], "discover": c.get("discover", False)}
 
 
 def value_for(k):
@@ -198,7 +199,25 @@ def execute(G, c):
             calls.append(("getnext1", rb.oid_text(BASE)))
         else:
             calls.append(("getbulk1", rb.oid_text(BASE), 3))
-    outs = drivers.run_calls(G, c["driver"], cfg, calls, handler, timeout=0.15)
+    kw = {}
+    link = None
+    if c.get("discover"):
+        link = ag.NbLink()
+        tmp = ag.Cfg("v3", user="", engine_id=b"")
+        client = drivers.NbClient(G, tmp, link)
+        client.send("refresh")
+        probe = link.recv_all()
+        preq = ag.decode_request(tmp, probe[0], strict=False)
+        link.send(ag.build_report(tmp, preq, cfg.engine_id, 0, 0))
+        client.recv("refresh")
+        client.sock.set_keys(*cfg.raw_args(cfg.engine_id))
+        client.cfg = cfg
+        kw = {"link": link, "client": client}
+    try:
+        outs = drivers.run_calls(G, c["driver"], cfg, calls, handler, timeout=0.15, **kw)
+    finally:
+        if link is not None:
+            link.close()
     # reference FIFO model
     q = []
     info = {"stale_before_match": False, "nonmatching_before_match": False}
@@ -262,7 +281,8 @@ def run(rep, tier):
         faults = set(f for r in c["reqs"] for _, f, _ in r["ems"])
         rep.case((c["cfg"].describe(), repr(c["reqs"])), nontrivial(c),
                  sample={"cfg": c["cfg"].describe(), "driver": c["driver"], "reqs": c["reqs"]},
-                 classes=["driver:" + c["driver"], "ver:" + c["cfg"].version, "nreq:%d" % len(c["reqs"])] + ["fault:" + f for f in faults])
+                 classes=["driver:" + c["driver"], "ver:" + c["cfg"].version, "nreq:%d" % len(c["reqs"])] + ["fault:" + f for f in faults]
+                 + (["v3_engine_id_discovered"] if c.get("discover") else []))
 
     n = 4000 if tier == "quick" else 100000
     if core.run_hypothesis(rep, gen.case_strategy(build_case, 512), body, n, describe=describe):
@@ -295,7 +315,7 @@ def exhaustive(rep, G):
 
 def replay(rep, case, body=None):
     G = drivers.load()
-    c = {"cfg": gen.cfg_from_json(case["_cfg"]), "driver": case["driver"],
+    c = {"cfg": gen.cfg_from_json(case["_cfg"]), "driver": case["driver"], "discover": case.get("discover", False),
          "reqs": [{"op": r["op"], "ems": [tuple(e) for e in r["ems"]]} for r in case["reqs"]]}
     try:
         execute(G, c)
